@@ -941,13 +941,13 @@ impl ty::TyExpression {
                 });
             }
 
-            //...but still check the arms above it for reachability
+            //...but still check the arms above it, and the catch-all arm itself, for reachability
             check_interior_non_catch_all_arms_for_reachability(
                 handler,
                 engines,
                 type_id,
                 value,
-                &arms_reachability[..catch_all_arm_position],
+                &arms_reachability[..=catch_all_arm_position],
             );
         }
         // if there are no interior catch-all arms and there is more than one arm
